@@ -26,7 +26,8 @@ inductive Key where
   | transcript_guid | transcript_interval_guid
   | interval_starts | interval_ends | feature_id | feature_name | feature_types | feature_interval_guid
   | feature_guid | is_primary_feature
-  | start | «end» | sequence | variant_type | phase_block | guid | variant_guid | variant_name | variant_id
+  | start | «end» | sequence | variant_type | phase_block | variant_interval_guid | variant_guid | variant_name
+  | variant_id
   | transcripts | gene_id | gene_symbol | gene_type | locus_tag | gene_guid
   | feature_intervals | feature_collection_name | feature_collection_id | feature_collection_type
   | feature_collection_guid
@@ -42,7 +43,8 @@ def Key.all : List Key := [
   .transcript_guid, .transcript_interval_guid,
   .interval_starts, .interval_ends, .feature_id, .feature_name, .feature_types, .feature_interval_guid,
   .feature_guid, .is_primary_feature,
-  .start, .end, .sequence, .variant_type, .phase_block, .guid, .variant_guid, .variant_name, .variant_id,
+  .start, .end, .sequence, .variant_type, .phase_block, .variant_interval_guid, .variant_guid, .variant_name,
+  .variant_id,
   .transcripts, .gene_id, .gene_symbol, .gene_type, .locus_tag, .gene_guid,
   .feature_intervals, .feature_collection_name, .feature_collection_id, .feature_collection_type,
   .feature_collection_guid,
@@ -64,7 +66,8 @@ def Key.str : Key → Str
   | .feature_types => "feature_types".toList | .feature_interval_guid => "feature_interval_guid".toList
   | .feature_guid => "feature_guid".toList | .is_primary_feature => "is_primary_feature".toList
   | .start => "start".toList | .end => "end".toList | .sequence => "sequence".toList
-  | .variant_type => "variant_type".toList | .phase_block => "phase_block".toList | .guid => "guid".toList
+  | .variant_type => "variant_type".toList | .phase_block => "phase_block".toList
+  | .variant_interval_guid => "variant_interval_guid".toList
   | .variant_guid => "variant_guid".toList | .variant_name => "variant_name".toList
   | .variant_id => "variant_id".toList
   | .transcripts => "transcripts".toList | .gene_id => "gene_id".toList | .gene_symbol => "gene_symbol".toList
@@ -346,7 +349,8 @@ def varToDict (o : VarObj) : PyVal :=
   let a := o.args
   mkDict [
     (.start, .int a.start), (.end, .int a.stop), (.sequence, .str a.sequence), (.variant_type, .str a.variantType),
-    (.phase_block, ofOptInt a.phaseBlock), (.guid, .uuid o.guid), (.variant_guid, ofOptUuid a.variantGuid),
+    (.phase_block, ofOptInt a.phaseBlock), (.variant_interval_guid, .uuid o.guid),
+    (.variant_guid, ofOptUuid a.variantGuid),
     (.variant_name, ofOptStr a.variantName), (.variant_id, ofOptStr o.variantId),
     (.qualifiers, qualsExportVal a.quals)]
 
@@ -357,7 +361,7 @@ def varFromDict (d : PyVal) : D VarObj := do
   let sq ← asStr (← getK .sequence d)
   let vt ← asStr (← getK .variant_type d)
   let pb ← asOptInt (← getK .phase_block d)
-  let guid ← asOptUuid (← getK .guid d)
+  let guid ← asOptUuid (← getK .variant_interval_guid d)
   let vguid ← asOptUuid (← getK .variant_guid d)
   let vname ← asOptStr (← getK .variant_name d)
   let vid ← asOptStr (← getK .variant_id d)
@@ -399,13 +403,18 @@ def geneToDict (o : GeneObj) : PyVal :=
 
 /-- the digest of a collection built from child OBJECTS: the children's stored GUIDs are digested (whether they were
     read from the dictionary or recomputed) -/
-def geneGuidOfObjs (txs : List TxObj) (gid sym ty lt sname : Option Str) (q : Quals) (cs : Int) : Option Str :=
+def geneObjDigestArgs (txs : List TxObj) (gid sym ty lt sname : Option Str) (q : Quals) (cs : Int) :
+    Option (List PyVal) :=
   (spanOf (txs.map fun t => t.args.bounds)).map fun sp =>
-    guidOf md5 [spanVal sp.1 sp.2 cs, ofOptStr gid, ofOptStr sym, ofOptBiotype ty, ofOptStr lt, ofOptStr sname,
+    [spanVal sp.1 sp.2 cs, ofOptStr gid, ofOptStr sym, ofOptBiotype ty, ofOptStr lt, ofOptStr sname,
       qualsVal q, .set (txs.map fun t => .uuid t.guid)]
 
-/-- gene.py:146-160 + constructor (no parent: `cs = 0`); an empty transcript list is refused -/
-def geneFromDict (d : PyVal) : D GeneObj := do
+def geneGuidOfObjs (txs : List TxObj) (gid sym ty lt sname : Option Str) (q : Quals) (cs : Int) : Option Str :=
+  (geneObjDigestArgs txs gid sym ty lt sname q cs).map (guidOf md5)
+
+/-- gene.py:146-160 + constructor; `cs` = start of the chunk parent handed to `from_dict` (0 without parent / on a
+    chromosome parent; the chunk is assumed to contain the gene); an empty transcript list is refused -/
+def geneFromDict (cs : Int) (d : PyVal) : D GeneObj := do
   let txs ← (← asList (← getK .transcripts d)).mapM (txFromDict md5)
   let gid ← asOptStr (← getK .gene_id d)
   let sym ← asOptStr (← getK .gene_symbol d)
@@ -417,7 +426,7 @@ def geneFromDict (d : PyVal) : D GeneObj := do
   let guid ← asOptUuid (← getK .gene_guid d)
   if txs.isEmpty then throw .invalidAnnotation
   let q := importQuals quals
-  let g ← guidOr guid (geneGuidOfObjs md5 txs gid sym ty lt sname q 0)
+  let g ← guidOr guid (geneGuidOfObjs md5 txs gid sym ty lt sname q cs)
   pure ⟨txs, gid, sym, ty, lt, q, sname, sguid, g⟩
 
 structure FcObj where
@@ -440,13 +449,17 @@ def fcToDict (o : FcObj) : PyVal :=
     (.sequence_name, ofOptStr o.sequenceName), (.sequence_guid, ofOptUuid o.sequenceGuid),
     (.feature_collection_guid, .uuid o.guid)]
 
-def fcGuidOfObjs (fs : List FeatObj) (name id ctype lt sname : Option Str) (q : Quals) (cs : Int) : Option Str :=
+def fcObjDigestArgs (fs : List FeatObj) (name id ctype lt sname : Option Str) (q : Quals) (cs : Int) :
+    Option (List PyVal) :=
   (spanOf (fs.map fun f => f.args.bounds)).map fun sp =>
-    guidOf md5 [spanVal sp.1 sp.2 cs, ofOptStr name, ofOptStr id, ofOptStr ctype,
-      .set ((fs.flatMap (·.args.featureTypes)).map .str), ofOptStr lt, ofOptStr sname, qualsVal q,
+    [spanVal sp.1 sp.2 cs, ofOptStr name, ofOptStr id, ofOptStr ctype,
+      .set ((strUnion (fs.map (·.args.featureTypes))).map .str), ofOptStr lt, ofOptStr sname, qualsVal q,
       .set (fs.map fun f => .uuid f.guid)]
 
-def fcFromDict (d : PyVal) : D FcObj := do
+def fcGuidOfObjs (fs : List FeatObj) (name id ctype lt sname : Option Str) (q : Quals) (cs : Int) : Option Str :=
+  (fcObjDigestArgs fs name id ctype lt sname q cs).map (guidOf md5)
+
+def fcFromDict (cs : Int) (d : PyVal) : D FcObj := do
   let fs ← (← asList (← getK .feature_intervals d)).mapM (featFromDict md5)
   let name ← asOptStr (← getK .feature_collection_name d)
   let id ← asOptStr (← getK .feature_collection_id d)
@@ -458,7 +471,7 @@ def fcFromDict (d : PyVal) : D FcObj := do
   let guid ← asOptUuid (← getK .feature_collection_guid d)
   if fs.isEmpty then throw .invalidAnnotation
   let q := importQuals quals
-  let g ← guidOr guid (fcGuidOfObjs md5 fs name id ctype lt sname q 0)
+  let g ← guidOr guid (fcGuidOfObjs md5 fs name id ctype lt sname q cs)
   pure ⟨fs, name, id, ctype, lt, q, sname, sguid, g⟩
 
 structure VcObj where
@@ -478,15 +491,18 @@ def vcToDict (o : VcObj) : PyVal :=
     (.sequence_name, ofOptStr o.sequenceName), (.sequence_guid, ofOptUuid o.sequenceGuid),
     (.variant_collection_guid, .uuid o.guid)]
 
-def vcGuidOfObjs (vs : List VarObj) (name id sname : Option Str) (q : Quals) (cs : Int) : Option Str :=
+def vcObjDigestArgs (vs : List VarObj) (name id sname : Option Str) (q : Quals) (cs : Int) : Option (List PyVal) :=
   (spanOf (vs.map fun v => (some v.args.start, some v.args.stop))).map fun sp =>
-    guidOf md5 [spanVal sp.1 sp.2 cs, ofOptStr name, ofOptStr id, ofOptStr sname, qualsVal q,
+    [spanVal sp.1 sp.2 cs, ofOptStr name, ofOptStr id, ofOptStr sname, qualsVal q,
       .set (vs.map fun v => .uuid v.guid)]
+
+def vcGuidOfObjs (vs : List VarObj) (name id sname : Option Str) (q : Quals) (cs : Int) : Option Str :=
+  (vcObjDigestArgs vs name id sname q cs).map (guidOf md5)
 
 /-- `sorted(variant_intervals, key=lambda x: x.start)` (stable) -/
 def sortVars (vs : List VarObj) : List VarObj := vs.mergeSort fun a b => decide (a.args.start ≤ b.args.start)
 
-def vcFromDict (d : PyVal) : D VcObj := do
+def vcFromDict (cs : Int) (d : PyVal) : D VcObj := do
   let vs0 ← (← asList (← getK .variant_intervals d)).mapM (varFromDict md5)
   let name ← asOptStr (← getK .variant_collection_name d)
   let id ← asOptStr (← getK .variant_collection_id d)
@@ -497,7 +513,7 @@ def vcFromDict (d : PyVal) : D VcObj := do
   if vs0.isEmpty then throw .invalidAnnotation   -- variants.py:355-356 (fix 7977ad0)
   let vs := sortVars vs0
   let q := importQuals quals
-  let g ← guidOr guid (vcGuidOfObjs md5 vs name id sname q 0)
+  let g ← guidOr guid (vcGuidOfObjs md5 vs name id sname q cs)
   pure ⟨vs, name, id, q, sname, sguid, g⟩
 
 /-! ### the parent dictionary (interval.py:89-157, collections.py:371-425) -/
@@ -545,6 +561,11 @@ def typeUpper (ty : PyVal) : D (Option Str) :=
 def strandOrPlus (v : PyVal) : D Strand :=
   if truthy v then lookupStrand v else pure Strand.plus
 
+/-- the key survived the `v is not None` filter -/
+def truthyOrPresent : PyVal → Bool
+  | .none => false
+  | _ => true
+
 /-- `convert_parent_dict_to_parent(vals)` -/
 def parentFromDict (v : PyVal) : D ParentDesc :=
   match v with
@@ -563,6 +584,8 @@ def parentFromDict (v : PyVal) : D ParentDesc :=
         let st ← strandOrPlus (getOpt .strand v)
         pure (.chunk sq al name s e st)
       else
+        -- `parent_dict["seq_id"] = parent_dict["sequence_name"]`: KeyError when the name was null (F-C08f)
+        if !truthyOrPresent (getOpt .sequence_name v) then throw .keyError
         let id ← asOptStr (getOpt .sequence_name v)
         pure (.chrom sq al id)
     else if truthy ty || truthy (getOpt .sequence_name v) then
@@ -602,10 +625,17 @@ def acToDict (o : AcObj) (exportParent : Bool) : D PyVal :=
       (.parent_or_seq_chunk_parent, if exportParent then parentToDict o.parent b else .none)])
 
 /-- the collection's digest (collections.py:152-154), children given by their stored GUIDs; `cs` = chunk start -/
+def boundsVal (cs : Int) : Option (Int × Int) → PyVal
+  | none => ofEmptyLocation
+  | some b => spanVal b.1 b.2 cs
+
+def acDigestArgs (bounds : Option (Int × Int)) (cs : Int) (name sname : Option Str) (q : Quals) (cw : Option Bool)
+    (children : List Str) : List PyVal :=
+  [boundsVal cs bounds, ofOptStr name, ofOptStr sname, qualsVal q, ofOptBool cw, .set (children.map .uuid)]
+
 def acGuidOf (bounds : Option (Int × Int)) (cs : Int) (name sname : Option Str) (q : Quals) (cw : Option Bool)
     (children : List Str) : Str :=
-  guidOf md5 [(match bounds with | none => ofEmptyLocation | some b => spanVal b.1 b.2 cs), ofOptStr name,
-    ofOptStr sname, qualsVal q, ofOptBool cw, .set (children.map .uuid)]
+  guidOf md5 (acDigestArgs bounds cs name sname q cw children)
 
 /-- chunk start of a parent (0 unless a chunk) -/
 def ParentDesc.chunkStart : ParentDesc → Int
@@ -641,9 +671,9 @@ def resolveBounds (s e : Option Int) (inferred : Option (Int × Int)) : D (Optio
 /-- collections.py:354-453 + constructor; `given` = the `parent_or_seq_chunk_parent` argument of `from_dict` -/
 def acFromDict (d : PyVal) (given : ParentDesc) : D AcObj := do
   let parent ← resolveParent d given
-  let genes ← optChildren (geneFromDict md5) (← getK .genes d)
-  let fcs ← optChildren (fcFromDict md5) (← getK .feature_collections d)
-  let vcs ← optChildren (vcFromDict md5) (← getK .variant_collections d)
+  let genes ← optChildren (geneFromDict md5 parent.chunkStart) (← getK .genes d)
+  let fcs ← optChildren (fcFromDict md5 parent.chunkStart) (← getK .feature_collections d)
+  let vcs ← optChildren (vcFromDict md5 parent.chunkStart) (← getK .variant_collections d)
   let name ← asOptStr (← getK .name d)
   let id ← asOptStr (← getK .id d)
   let quals ← asRawQuals (← getK .qualifiers d)
